@@ -1,8 +1,919 @@
-//! placeholder: this component is not built yet
+//! C14 — constant visibility follows file scope.
+//!
+//! Generated multi-file projects are written to disk and assembled with the REAL `Context` exactly as
+//! `src/bin/assembler.rs` does (`assemble`, `close_segment`, `finalize`, `output().iter()`, `get_errors()`).
+//! Observation: the bytes of every `.du32 <name>;` statement and the diagnostics (kind + file + line).
+//!  * correspondence: the project is flattened into the op sequence of the Lean model `Trion.Scope`
+//!    (`enter/exit/label/const/global/import/export/use/finalize`) and the model's log is compared with the
+//!    observation (values per statement, diagnostics in order, result of `finalize`, final global table);
+//!  * oracle: a reference interpretation of the scope RULES (README "Constants"/directive list and the
+//!    property text) written over dictionaries per file — no table swapping, no task queues — decides which
+//!    definition each use must see and which statement must be diagnosed; an independent declarative check
+//!    verifies that every value seen in another file travelled along `.export/.global` (upwards) and
+//!    `.import` (downwards) edges of the include tree, and that no value differs from a defining statement.
+use std::collections::{BTreeMap, HashMap, HashSet};
+use std::path::PathBuf;
+
+use trion::arm6m::Arm6M;
+use trion::asm::constant::{Lookup, Realm};
+use trion::asm::directive::DirectiveList;
+use trion::asm::Context;
+
 use crate::common::*;
 
-pub fn run(id: &str, cx: &mut Cx)
+const BASE: u32 = 0x2000_0000;
+const REGS: [&str; 30] = ["R0", "R1", "R2", "R3", "R4", "R5", "R6", "R7", "R8", "R9", "R10", "R11", "R12", "R13", "SP", "R14", "LR",
+	"R15", "PC", "APSR", "IAPSR", "EAPSR", "XPSR", "IPSR", "EPSR", "IEPSR", "MSP", "PSP", "PRIMASK", "CONTROL"];
+
+fn is_reg(n: &str) -> bool {REGS.iter().any(|r| r.eq_ignore_ascii_case(n))}
+
+#[derive(Clone, Debug, PartialEq)]
+enum St
 {
-	cx.report.notes.push(format!("component for {id} not implemented"));
-	cx.report.oracle_fail("-", "harness component not implemented");
+	Const(String, i64),
+	Label(String),
+	Global(String),
+	Import(String),
+	Export(String),
+	Use(String),
+	Include(usize),
+}
+
+/// file 0 is the root; every other file is included exactly once
+#[derive(Clone, Debug, PartialEq)]
+struct Project
+{
+	files: Vec<Vec<St>>,
+}
+
+fn tag_of(file: usize, idx: usize) -> u64
+{
+	// root has the `.addr` line first
+	(file as u64) * 1000 + idx as u64 + if file == 0 {2} else {1}
+}
+fn file_of_tag(tag: u64) -> usize {(tag / 1000) as usize}
+fn line_of_tag(tag: u64) -> u32 {(tag % 1000) as u32}
+
+impl Project
+{
+	fn encode(&self) -> String
+	{
+		self.files.iter().map(|f| f.iter().map(|s| match s
+		{
+			St::Const(n, v) => format!("c:{n}:{v}"),
+			St::Label(n) => format!("l:{n}"),
+			St::Global(n) => format!("g:{n}"),
+			St::Import(n) => format!("m:{n}"),
+			St::Export(n) => format!("e:{n}"),
+			St::Use(n) => format!("u:{n}"),
+			St::Include(i) => format!("i:{i}"),
+		}).collect::<Vec<_>>().join(",")).collect::<Vec<_>>().join("/")
+	}
+
+	fn decode(s: &str) -> Option<Project>
+	{
+		let mut files = Vec::new();
+		for f in s.split('/')
+		{
+			let mut sts = Vec::new();
+			for st in f.split(',').filter(|x| !x.is_empty())
+			{
+				let w: Vec<&str> = st.split(':').collect();
+				sts.push(match w.as_slice()
+				{
+					["c", n, v] => St::Const((*n).to_owned(), v.parse().ok()?),
+					["l", n] => St::Label((*n).to_owned()),
+					["g", n] => St::Global((*n).to_owned()),
+					["m", n] => St::Import((*n).to_owned()),
+					["e", n] => St::Export((*n).to_owned()),
+					["u", n] => St::Use((*n).to_owned()),
+					["i", i] => St::Include(i.parse().ok()?),
+					_ => return None,
+				});
+			}
+			files.push(sts);
+		}
+		Some(Project{files})
+	}
+
+	fn text(&self, file: usize) -> String
+	{
+		let mut o = String::new();
+		if file == 0 {o.push_str(&format!(".addr 0x{BASE:08X};\n"));}
+		for s in &self.files[file]
+		{
+			match s
+			{
+				St::Const(n, v) => o.push_str(&format!(".const {n}, {v};\n")),
+				St::Label(n) => o.push_str(&format!("{n}:\n")),
+				St::Global(n) => o.push_str(&format!(".global {n};\n")),
+				St::Import(n) => o.push_str(&format!(".import {n};\n")),
+				St::Export(n) => o.push_str(&format!(".export {n};\n")),
+				St::Use(n) => o.push_str(&format!(".du32 {n};\n")),
+				St::Include(i) => o.push_str(&format!(".include \"f{i}.asm\";\n")),
+			}
+		}
+		o
+	}
+
+	fn parent_map(&self) -> Vec<Option<usize>>
+	{
+		let mut p = vec![None; self.files.len()];
+		for (fi, f) in self.files.iter().enumerate()
+		{
+			for s in f {if let St::Include(c) = s {if *c < p.len() {p[*c] = Some(fi);}}}
+		}
+		p
+	}
+
+	/// well-formed: an include tree (every file but the root included exactly once, from a lower-numbered file)
+	fn is_tree(&self) -> bool
+	{
+		let mut seen = vec![0usize; self.files.len()];
+		for (fi, f) in self.files.iter().enumerate()
+		{
+			for s in f
+			{
+				if let St::Include(c) = s
+				{
+					if *c >= self.files.len() || *c <= fi {return false;}
+					seen[*c] += 1;
+				}
+			}
+		}
+		seen[0] == 0 && seen[1..].iter().all(|&n| n == 1)
+	}
+}
+
+/// statement in processing order, with everything that is static about it
+#[derive(Clone, Debug)]
+struct Flat
+{
+	ops: Vec<String>,
+	/// (tag, address) of the `.du32` statements in processing order
+	uses: Vec<(u64, u32)>,
+	/// value of each defining statement: tag -> (name, value)
+	defs: BTreeMap<u64, (String, i64)>,
+}
+
+fn flatten(p: &Project) -> Flat
+{
+	fn go(p: &Project, file: usize, inc_tag: u64, fl: &mut Flat, addr: &mut u32)
+	{
+		fl.ops.push(format!("en:{inc_tag}"));
+		for (i, s) in p.files[file].iter().enumerate()
+		{
+			let tag = tag_of(file, i);
+			match s
+			{
+				St::Const(n, v) => {fl.ops.push(format!("co:{n}:{v}:{tag}")); fl.defs.insert(tag, (n.clone(), *v));},
+				St::Label(n) => {fl.ops.push(format!("la:{n}:{}:{tag}", *addr)); fl.defs.insert(tag, (n.clone(), *addr as i64));},
+				St::Global(n) => fl.ops.push(format!("gl:{n}:{tag}")),
+				St::Import(n) => fl.ops.push(format!("im:{n}:{tag}")),
+				St::Export(n) => fl.ops.push(format!("xp:{n}:{tag}")),
+				St::Use(n) => {fl.ops.push(format!("us:{n}:{tag}")); fl.uses.push((tag, *addr)); *addr += 4;},
+				St::Include(c) => go(p, *c, tag, fl, addr),
+			}
+		}
+		fl.ops.push("ex".to_owned());
+	}
+	let mut fl = Flat{ops: Vec::new(), uses: Vec::new(), defs: BTreeMap::new()};
+	let mut addr = BASE;
+	go(p, 0, 0, &mut fl, &mut addr);
+	fl.ops.push("fi".to_owned());
+	fl
+}
+
+// ---------------------------------------------------------------------------------------------------------
+// observation of the real code
+
+#[derive(Clone, Debug, Default, PartialEq)]
+struct Observed
+{
+	panic: Option<String>,
+	/// tag -> value for every `.du32` whose bytes are not the padding
+	values: BTreeMap<u64, u32>,
+	/// number of `.du32` statements that were executed (4 bytes each)
+	executed: usize,
+	/// (tag, kind) in the order of `get_errors()`
+	diags: Vec<(u64, String)>,
+	final_ok: bool,
+	globals: Vec<String>,
+	has_file: bool,
+}
+
+fn kind_of(msgs: &[String]) -> String
+{
+	let last = msgs.last().map(String::as_str).unwrap_or("");
+	let table: [(&str, &str); 11] = [("reserved name", "reserved"), ("duplicate global constant", "dupGlobal"), ("duplicate local constant", "dupLocal"),
+		("duplicate constant", "dupConst"), ("no such global constant", "nfGlobal"), ("no such local constant", "nfLocal"),
+		("declared global constant", "defGlobal"), ("declared local constant", "defLocal"), ("constant out of range", "range"),
+		("invalid argument #", "argType"), ("assembly of", "asmFailed")];
+	for (pre, k) in table {if last.starts_with(pre) {return k.to_owned();}}
+	format!("other[{}]", msgs.join(" <- ").replace(' ', "_"))
+}
+
+fn observe(p: &Project, dir: &PathBuf, fl: &Flat, names: &[String]) -> Observed
+{
+	std::fs::create_dir_all(dir).unwrap();
+	for i in 0..p.files.len() {std::fs::write(dir.join(format!("f{i}.asm")), p.text(i)).unwrap();}
+	let root = dir.join("f0.asm");
+	let data = std::fs::read(&root).unwrap();
+	let res = guarded(||
+	{
+		let directives = DirectiveList::generate();
+		let mut ctx = Context::new(&Arm6M, &directives);
+		drop(ctx.assemble(data.as_ref(), root.clone()));
+		let mut o = Observed::default();
+		if let Err(e) = ctx.close_segment()
+		{
+			o.diags.push((0, format!("close[{e}]")));
+		}
+		o.final_ok = ctx.finalize();
+		let mut image: HashMap<u32, u8> = HashMap::new();
+		for (range, seg) in ctx.output().iter()
+		{
+			for (k, b) in seg.iter().enumerate() {image.insert(range.get_first() + k as u32, *b);}
+		}
+		o.executed = image.len() / 4;
+		for (tag, addr) in &fl.uses
+		{
+			let bytes: Vec<u8> = (0..4).filter_map(|k| image.get(&(addr + k)).copied()).collect();
+			if bytes.len() == 4 && bytes != [0xBE; 4]
+			{
+				o.values.insert(*tag, u32::from_le_bytes([bytes[0], bytes[1], bytes[2], bytes[3]]));
+			}
+		}
+		for err in ctx.get_errors()
+		{
+			let mut msgs = vec![format!("{}", &err.value)];
+			let mut src = std::error::Error::source(&err.value);
+			while let Some(s) = src
+			{
+				msgs.push(format!("{s}"));
+				src = s.source();
+			}
+			let name = err.name.as_str();
+			let file = name.rsplit('/').next().and_then(|f| f.strip_prefix('f')).and_then(|f| f.strip_suffix(".asm")).and_then(|f| f.parse::<u64>().ok());
+			let tag = match file {Some(f) => f * 1000 + err.line as u64, None => 999_999};
+			o.diags.push((tag, kind_of(&msgs)));
+		}
+		for n in names
+		{
+			match ctx.get_constant(n, Realm::Global)
+			{
+				Lookup::NotFound => (),
+				Lookup::Deferred => o.globals.push(format!("{n}=?")),
+				Lookup::Found(v) => o.globals.push(format!("{n}={v}")),
+			}
+		}
+		o.globals.sort();
+		o.has_file = ctx.has_curr_file();
+		o
+	});
+	match res
+	{
+		Ok(o) => o,
+		Err(msg) => Observed{panic: Some(msg), ..Observed::default()},
+	}
+}
+
+fn canon_obs(o: &Observed) -> String
+{
+	if let Some(p) = &o.panic {return format!("PANIC: {p}");}
+	format!("V[{}] D[{}] F:{} G[{}] depth0:{}",
+		o.values.iter().map(|(t, v)| format!("{t}:{v}")).collect::<Vec<_>>().join(" "),
+		o.diags.iter().map(|(t, k)| format!("{t}:{k}")).collect::<Vec<_>>().join(" "),
+		if o.final_ok {"ok"} else {"fail"}, o.globals.join(" "), !o.has_file)
+}
+
+/// the model's reply in the same canonical form; also returns the stage histogram (immediate, local, global)
+fn canon_model(reply: &str) -> (String, [u64; 3])
+{
+	let mut stages = [0u64; 3];
+	if reply.starts_with("PANIC") {return (format!("PANIC: {}", &reply[5..].trim()), stages);}
+	let parts: Vec<&str> = reply.split('|').collect();
+	if parts.len() != 3 {return (format!("unparsed[{reply}]"), stages);}
+	let mut values: BTreeMap<u64, String> = BTreeMap::new();
+	let mut diags = Vec::new();
+	let mut fin = "none".to_owned();
+	for w in parts[0].split(' ').filter(|w| !w.is_empty())
+	{
+		let f: Vec<&str> = w.split(':').collect();
+		match f.as_slice()
+		{
+			["V", t, v, st] =>
+			{
+				values.insert(t.parse().unwrap_or(0), (*v).to_owned());
+				if let Ok(i) = st.parse::<usize>() {if i < 3 {stages[i] += 1;}}
+			},
+			["D", t, k] => diags.push(format!("{t}:{k}")),
+			["F", r] => fin = (*r).to_owned(),
+			_ => diags.push(format!("?{w}")),
+		}
+	}
+	let mut globals: Vec<String> = parts[1].split(' ').filter(|w| !w.is_empty()).map(str::to_owned).collect();
+	globals.sort();
+	let st: Vec<&str> = parts[2].split(' ').filter(|w| !w.is_empty()).collect();
+	let depth0 = st.as_slice() == ["0", "none", "0", "running"];
+	(format!("V[{}] D[{}] F:{} G[{}] depth0:{}",
+		values.iter().map(|(t, v)| format!("{t}:{v}")).collect::<Vec<_>>().join(" "), diags.join(" "), fin, globals.join(" "), depth0), stages)
+}
+
+// ---------------------------------------------------------------------------------------------------------
+// reference interpretation of the scope rules
+
+#[derive(Clone, Debug, PartialEq)]
+enum Entry
+{
+	/// announced (by `.global`, or imported while the includer only announced it) but no value yet
+	Declared,
+	/// value and the tag of the defining statement
+	Valued(i64, u64),
+}
+
+type Scope = HashMap<String, Entry>;
+
+#[derive(Clone, Debug, PartialEq)]
+enum Verdict
+{
+	/// every use resolved: use tag -> (value, defining tag)
+	Clean(BTreeMap<u64, (i64, u64)>),
+	/// the statement that the rules require to be diagnosed, and the rule
+	Violation(u64, &'static str),
+	/// a construct about which the rules are silent (kept out of the verdict, counted)
+	Unspecified(&'static str),
+}
+
+struct RefInt<'p>
+{
+	p: &'p Project,
+	fl: &'p Flat,
+	resolved: BTreeMap<u64, (i64, u64)>,
+}
+
+enum Stop {Violation(u64, &'static str), Unspecified(&'static str)}
+
+impl<'p> RefInt<'p>
+{
+	/// returns the uses that this file hands to its includer (name announced but never valued here)
+	fn file(&mut self, file: usize, parent: &mut Scope) -> Result<Vec<(u64, String)>, Stop>
+	{
+		let mut scope: Scope = HashMap::new();
+		let mut pending_uses: Vec<(u64, String)> = Vec::new();
+		let mut pending_globals: Vec<(u64, String)> = Vec::new();
+		let mut escalated_in: Vec<(u64, String)> = Vec::new();
+		let mut imported_declared: HashSet<String> = HashSet::new();
+		for (i, s) in self.p.files[file].iter().enumerate()
+		{
+			let tag = tag_of(file, i);
+			match s
+			{
+				St::Const(n, _) | St::Label(n) =>
+				{
+					let v = self.fl.defs[&tag].1;
+					if is_reg(n) {return Err(Stop::Violation(tag, "register name"));}
+					if let Some(Entry::Valued(..)) = scope.get(n) {return Err(Stop::Violation(tag, "second definition in one scope"));}
+					if imported_declared.contains(n) {return Err(Stop::Unspecified("definition of a name imported while still unvalued"));}
+					scope.insert(n.clone(), Entry::Valued(v, tag));
+				},
+				St::Global(n) =>
+				{
+					if is_reg(n) {return Err(Stop::Violation(tag, "register name"));}
+					if parent.contains_key(n) {return Err(Stop::Violation(tag, "export over an existing name"));}
+					match scope.get(n)
+					{
+						Some(Entry::Valued(v, d)) => {parent.insert(n.clone(), Entry::Valued(*v, *d));},
+						_ =>
+						{
+							parent.insert(n.clone(), Entry::Declared);
+							scope.entry(n.clone()).or_insert(Entry::Declared);
+							pending_globals.push((tag, n.clone()));
+						},
+					}
+				},
+				St::Import(n) =>
+				{
+					match parent.get(n).cloned()
+					{
+						None => return Err(Stop::Violation(tag, "import of a missing name")),
+						Some(Entry::Declared) =>
+						{
+							if scope.contains_key(n) {return Err(Stop::Violation(tag, "second definition in one scope"));}
+							scope.insert(n.clone(), Entry::Declared);
+							imported_declared.insert(n.clone());
+						},
+						Some(Entry::Valued(v, d)) =>
+						{
+							if let Some(Entry::Valued(..)) = scope.get(n) {return Err(Stop::Violation(tag, "second definition in one scope"));}
+							if imported_declared.contains(n) {return Err(Stop::Unspecified("definition of a name imported while still unvalued"));}
+							scope.insert(n.clone(), Entry::Valued(v, d));
+						},
+					}
+				},
+				St::Export(n) =>
+				{
+					match scope.get(n).cloned()
+					{
+						None | Some(Entry::Declared) => return Err(Stop::Violation(tag, "export of an unvalued name")),
+						Some(Entry::Valued(v, d)) =>
+						{
+							if let Some(Entry::Valued(..)) = parent.get(n) {return Err(Stop::Violation(tag, "export over an existing name"));}
+							parent.insert(n.clone(), Entry::Valued(v, d));
+						},
+					}
+				},
+				St::Use(n) =>
+				{
+					if is_reg(n) {return Err(Stop::Violation(tag, "use of a register as a value"));}
+					pending_uses.push((tag, n.clone()));
+				},
+				St::Include(c) =>
+				{
+					let up = self.file(*c, &mut scope)?;
+					escalated_in.extend(up);
+				},
+			}
+		}
+		// end of the file: announced globals must have received a value; uses see the final scope
+		let mut order: Vec<(u64, bool, String)> = Vec::new();
+		for (t, n) in pending_globals {order.push((t, true, n));}
+		for (t, n) in pending_uses {order.push((t, false, n));}
+		order.sort();
+		let mut up = Vec::new();
+		for (tag, is_global, n) in order
+		{
+			if is_global
+			{
+				match scope.get(&n).cloned()
+				{
+					Some(Entry::Valued(v, d)) =>
+					{
+						if let Some(Entry::Valued(..)) = parent.get(&n) {return Err(Stop::Violation(tag, "export over an existing name"));}
+						parent.insert(n.clone(), Entry::Valued(v, d));
+					},
+					_ => return Err(Stop::Violation(tag, "export of an unvalued name")),
+				}
+			}
+			else
+			{
+				match scope.get(&n).cloned()
+				{
+					Some(Entry::Valued(v, d)) => self.use_value(tag, v, d)?,
+					Some(Entry::Declared) => up.push((tag, n)),
+					None => return Err(Stop::Violation(tag, "use of a name that is not visible")),
+				}
+			}
+		}
+		// uses handed up by included files see this file's final scope
+		for (tag, n) in escalated_in
+		{
+			match scope.get(&n).cloned()
+			{
+				Some(Entry::Valued(v, d)) => self.use_value(tag, v, d)?,
+				_ => return Err(Stop::Violation(tag, "use of a name that is not visible")),
+			}
+		}
+		Ok(up)
+	}
+
+	fn use_value(&mut self, tag: u64, v: i64, d: u64) -> Result<(), Stop>
+	{
+		if v < 0 || v > u32::MAX as i64 {return Err(Stop::Violation(tag, "value out of the .du32 range"));}
+		self.resolved.insert(tag, (v, d));
+		Ok(())
+	}
+}
+
+fn reference(p: &Project, fl: &Flat) -> Verdict
+{
+	let mut r = RefInt{p, fl, resolved: BTreeMap::new()};
+	let mut top: Scope = HashMap::new();
+	match r.file(0, &mut top)
+	{
+		Err(Stop::Violation(t, w)) => Verdict::Violation(t, w),
+		Err(Stop::Unspecified(w)) => Verdict::Unspecified(w),
+		Ok(up) =>
+		{
+			// uses handed to the top level see the global table, which nothing can give a value after the root file ended
+			if let Some((tag, n)) = up.first()
+			{
+				match top.get(n)
+				{
+					Some(Entry::Valued(..)) => Verdict::Unspecified("top-level resolution of a root-file use"),
+					_ => Verdict::Violation(*tag, "use of a name that is not visible"),
+				}
+			}
+			else {Verdict::Clean(r.resolved)}
+		},
+	}
+}
+
+/// declarative isolation check: the value of use `tag` (file G, name n) comes from a definition of n in some file F
+/// such that every upward edge X -> parent(X) on the tree path F..G is licensed by `.export n` / `.global n` in X and every
+/// downward edge parent(Y) -> Y by `.import n` in Y
+fn licensed(p: &Project, parents: &[Option<usize>], name: &str, from: usize, to: usize) -> bool
+{
+	let chain = |mut f: usize| {let mut c = vec![f]; while let Some(q) = parents[f] {c.push(q); f = q;} c};
+	let (cf, ct) = (chain(from), chain(to));
+	let lca = match cf.iter().find(|x| ct.contains(x)) {Some(l) => *l, None => return false};
+	let has = |file: usize, f: &dyn Fn(&St) -> bool| p.files[file].iter().any(|s| f(s));
+	for x in cf.iter().take_while(|x| **x != lca)
+	{
+		if !has(*x, &|s| matches!(s, St::Export(n) | St::Global(n) if n == name)) {return false;}
+	}
+	for y in ct.iter().take_while(|y| **y != lca)
+	{
+		if !has(*y, &|s| matches!(s, St::Import(n) if n == name)) {return false;}
+	}
+	true
+}
+
+// ---------------------------------------------------------------------------------------------------------
+// generators
+
+const NAMES: [&str; 4] = ["a", "b", "c", "d"];
+const REG_NAMES: [&str; 8] = ["R0", "sp", "Lr", "pc", "APSR", "r13", "control", "R12"];
+
+fn value_for(tag: u64, rng: &mut Rng) -> i64
+{
+	match rng.below(40)
+	{
+		0 => (1i64 << 32) + tag as i64,
+		1 => -(tag as i64) - 1,
+		2 => 0,
+		3 => u32::MAX as i64,
+		_ => 100_000 + tag as i64,
+	}
+}
+
+/// random project guided by the reference rules: most statements are chosen so that they are legal where they stand
+fn gen_random(rng: &mut Rng) -> Project
+{
+	let max_files = 1 + rng.below(9) as usize;
+	let max_depth = 1 + rng.below(4) as usize;
+	let legal_pct = *rng.pick(&[100u64, 100, 95, 90, 70, 30]);
+	let mut p = Project{files: vec![Vec::new()]};
+	// scopes[k] = what the generator believes about the names of the file at nesting level k (level 0 = top-level table)
+	fn gen_file(p: &mut Project, file: usize, depth: usize, max_depth: usize, max_files: usize, legal_pct: u64, scopes: &mut Vec<HashMap<String, bool>>, rng: &mut Rng)
+	{
+		scopes.push(HashMap::new());
+		let n_st = rng.below(7) as usize + if file == 0 {1} else {0};
+		let mut announced: Vec<String> = Vec::new();
+		let mut used: Vec<String> = Vec::new();
+		for _ in 0..n_st
+		{
+			let idx = p.files[file].len();
+			if idx > 900 {break;}
+			let tag = tag_of(file, idx);
+			let lvl = scopes.len() - 1;
+			let legal = rng.below(100) < legal_pct;
+			let any_name = |rng: &mut Rng| if rng.chance(1, 12) {(*rng.pick(&REG_NAMES)).to_owned()} else {(*rng.pick(&NAMES)).to_owned()};
+			let kind = rng.below(16);
+			let st = match kind
+			{
+				0..=2 =>
+				{
+					// definition
+					let free: Vec<&str> = NAMES.iter().copied().filter(|n| scopes[lvl].get(*n) != Some(&true)).collect();
+					let n = if legal && !free.is_empty() {(*rng.pick(&free)).to_owned()} else {any_name(rng)};
+					scopes[lvl].insert(n.clone(), true);
+					if rng.chance(1, 3) {St::Label(n)} else {St::Const(n, value_for(tag, rng))}
+				},
+				3..=4 =>
+				{
+					let free: Vec<&str> = NAMES.iter().copied().filter(|n| !scopes[lvl - 1].contains_key(*n)).collect();
+					let n = if legal && !free.is_empty() {(*rng.pick(&free)).to_owned()} else {any_name(rng)};
+					let valued = scopes[lvl].get(&n) == Some(&true);
+					scopes[lvl - 1].insert(n.clone(), valued);
+					if !valued {scopes[lvl].entry(n.clone()).or_insert(false); announced.push(n.clone());}
+					St::Global(n)
+				},
+				5..=6 =>
+				{
+					let ok: Vec<&str> = NAMES.iter().copied().filter(|n| scopes[lvl - 1].contains_key(*n) && !scopes[lvl].contains_key(*n)).collect();
+					let n = if legal && !ok.is_empty() {(*rng.pick(&ok)).to_owned()} else if legal {continue} else {any_name(rng)};
+					let v = scopes[lvl - 1].get(&n).copied().unwrap_or(false);
+					scopes[lvl].insert(n.clone(), v);
+					St::Import(n)
+				},
+				7..=8 =>
+				{
+					let ok: Vec<&str> = NAMES.iter().copied().filter(|n| scopes[lvl].get(*n) == Some(&true) && scopes[lvl - 1].get(*n) != Some(&true)).collect();
+					let n = if legal && !ok.is_empty() {(*rng.pick(&ok)).to_owned()} else if legal {continue} else {any_name(rng)};
+					scopes[lvl - 1].insert(n.clone(), true);
+					St::Export(n)
+				},
+				9..=12 =>
+				{
+					let n = if legal {(*rng.pick(&NAMES)).to_owned()} else {any_name(rng)};
+					used.push(n.clone());
+					St::Use(n)
+				},
+				_ =>
+				{
+					if depth < max_depth && p.files.len() < max_files && p.files[file].iter().filter(|s| matches!(s, St::Include(..))).count() < 3
+					{
+						let c = p.files.len();
+						p.files.push(Vec::new());
+						p.files[file].push(St::Include(c));
+						gen_file(p, c, depth + 1, max_depth, max_files, legal_pct, scopes, rng);
+						continue;
+					}
+					else {continue}
+				},
+			};
+			p.files[file].push(st);
+		}
+		// close the file legally: announced names and used names get a definition (mostly)
+		let lvl = scopes.len() - 1;
+		let mut need: Vec<String> = announced;
+		need.extend(used);
+		for n in need
+		{
+			if scopes[lvl].get(&n) != Some(&true) && rng.below(100) < legal_pct.max(50) && !is_reg(&n)
+			{
+				let idx = p.files[file].len();
+				let tag = tag_of(file, idx);
+				scopes[lvl].insert(n.clone(), true);
+				if scopes[lvl - 1].get(&n) == Some(&false) {scopes[lvl - 1].insert(n.clone(), true);}
+				p.files[file].push(if rng.chance(1, 3) {St::Label(n)} else {St::Const(n, 100_000 + tag as i64)});
+			}
+		}
+		scopes.pop();
+	}
+	let mut scopes = vec![HashMap::new()];
+	gen_file(&mut p, 0, 1, max_depth, max_files, legal_pct, &mut scopes, rng);
+	p
+}
+
+/// projects built around names that are announced by the includer (`.global`) before the `.include`, imported by the
+/// child while still unvalued, used there, and defined by the includer afterwards (the use is resolved by the task that
+/// runs in the includer); with random variations that break the pattern
+fn gen_deferred(rng: &mut Rng) -> Project
+{
+	let depth = 1 + rng.below(3) as usize;
+	let mut files: Vec<Vec<St>> = vec![Vec::new(); depth + 1];
+	let n = (*rng.pick(&NAMES)).to_owned();
+	for k in 0..=depth
+	{
+		let f = &mut files[k];
+		if k == 0 || rng.chance(1, 3) {f.push(St::Global(n.clone()));} else {f.push(St::Import(n.clone()));}
+		if rng.chance(1, 2) {f.push(St::Use(n.clone()));}
+		if k < depth {f.push(St::Include(k + 1));}
+		if rng.chance(1, 3) {f.push(St::Use(n.clone()));}
+		let define = if k == 0 {rng.chance(9, 10)} else {rng.chance(1, 2)};
+		if define
+		{
+			let tag = tag_of(k, f.len());
+			f.push(if rng.chance(1, 4) {St::Label(n.clone())} else {St::Const(n.clone(), 100_000 + tag as i64)});
+		}
+		if rng.chance(1, 3) {f.push(St::Use(n.clone()));}
+		if rng.chance(1, 8) {f.push(St::Export(n.clone()));}
+	}
+	Project{files}
+}
+
+/// all two-file projects `pre ++ [include] ++ post` / `child` over one name
+fn enumerate_two_files(max_child: usize, max_pre: usize, max_post: usize) -> Vec<Project>
+{
+	fn seqs(alpha: &[St], max: usize) -> Vec<Vec<St>>
+	{
+		let mut out = vec![Vec::new()];
+		let mut last = vec![Vec::new()];
+		for _ in 0..max
+		{
+			let mut next = Vec::new();
+			for s in &last {for a in alpha {let mut t: Vec<St> = s.clone(); t.push(a.clone()); next.push(t);}}
+			out.extend(next.iter().cloned());
+			last = next;
+		}
+		out
+	}
+	let x = || "x".to_owned();
+	let child_alpha = [St::Const(x(), 7), St::Label(x()), St::Global(x()), St::Import(x()), St::Export(x()), St::Use(x())];
+	let pre_alpha = [St::Const(x(), 1), St::Global(x()), St::Use(x()), St::Export(x())];
+	let post_alpha = [St::Const(x(), 2), St::Use(x()), St::Label(x())];
+	let mut out = Vec::new();
+	for pre in seqs(&pre_alpha, max_pre)
+	{
+		for post in seqs(&post_alpha, max_post)
+		{
+			for child in seqs(&child_alpha, max_child)
+			{
+				let mut root = pre.clone();
+				root.push(St::Include(1));
+				root.extend(post.iter().cloned());
+				out.push(Project{files: vec![root, child]});
+			}
+		}
+	}
+	out
+}
+
+/// hand-written projects for the collision patterns and placements named by the property
+fn scenarios() -> Vec<Project>
+{
+	let texts = [
+		// same name in siblings (free reuse)
+		"i:1,i:2,u:a,c:a:3/c:a:1,u:a/c:a:2,u:a",
+		// same name in parent and child
+		"c:a:1,i:1,u:a/c:a:2,u:a",
+		// double definition
+		"c:a:1,c:a:2", "l:a,l:a", "c:a:1,l:a", "i:1/c:a:1,u:a,c:a:2",
+		// export over existing
+		"c:a:1,i:1/c:a:2,e:a", "i:1,i:2/c:a:1,e:a/c:a:2,e:a", "i:1/c:a:1,e:a,e:a", "i:1/c:a:1,g:a,e:a", "i:1/g:a,c:a:1,e:a", "i:1/c:a:1,e:a,g:a",
+		"c:a:1,i:1/g:a,c:a:2", "g:a,i:1,c:a:5/g:a,c:a:2",
+		// import of missing
+		"i:1/m:a", "i:1,c:a:1/m:a,u:a", "i:1/i:2/c:a:1,i:3/m:a,u:a",
+		// import found / chain down
+		"c:a:1,i:1/m:a,u:a,i:2/m:a,u:a,i:3/m:a,u:a", "c:a:1,i:1/u:a,i:2/m:a",
+		// export of deferred / unvalued
+		"i:1/g:a,e:a,c:a:1", "i:1/e:a", "i:1/g:a", "g:a", "g:a,c:a:1,u:a", "c:a:1,g:a,u:a", "g:a,u:a",
+		// global chains up
+		"i:1,u:a/i:2,g:a,u:a/i:3,g:a/g:a,c:a:9", "i:1,u:a/i:2,u:a/g:a,l:a", "u:a,i:1/u:a,i:2,e:a/u:a,c:a:4,e:a",
+		// deferred import resolved by the includer later (global stage)
+		"g:a,i:1,c:a:5/m:a,u:a", "g:a,i:1,c:a:5/m:a,u:a,i:2/m:a,u:a", "g:a,i:1/m:a,u:a",
+		// definition of a name imported while unvalued
+		"g:a,i:1,c:a:5/m:a,c:a:7,u:a",
+		// register names
+		"c:R0:1", "l:sp", "g:pc", "m:lr", "e:R12", "u:R0", "i:1/c:control:1", "i:1/g:APSR",
+		// uses before / after definitions, labels
+		"u:a,l:a,u:a,l:b,u:b", "u:a", "i:1/u:a", "i:1,c:a:1/u:a",
+		// range
+		"c:a:4294967296,u:a", "c:a:-1,u:a", "u:a,c:a:-1", "c:a:4294967295,u:a",
+	];
+	texts.iter().map(|t| Project::decode(t).unwrap()).collect()
+}
+
+// ---------------------------------------------------------------------------------------------------------
+
+fn names_of(p: &Project) -> Vec<String>
+{
+	let mut s: HashSet<String> = HashSet::new();
+	for f in &p.files
+	{
+		for st in f
+		{
+			match st
+			{
+				St::Const(n, _) | St::Label(n) | St::Global(n) | St::Import(n) | St::Export(n) | St::Use(n) => {s.insert(n.clone());},
+				St::Include(..) => (),
+			}
+		}
+	}
+	let mut v: Vec<String> = s.into_iter().collect();
+	v.sort();
+	v
+}
+
+fn check_one(cx: &mut Cx, p: &Project, fl: &Flat, reply: &str, serial: u64)
+{
+	let input = p.encode();
+	let dir = cx.work.join(format!("p{}", serial % 64));
+	let names = names_of(p);
+	let obs = observe(p, &dir, fl, &names);
+	let imp = canon_obs(&obs);
+	let (model, stages) = canon_model(reply);
+	cx.report.case(if obs.values.is_empty() && obs.diags.is_empty() {None} else {Some(&imp)});
+	cx.report.compare("model.scope.run", &input, &model, &imp);
+	cx.report.hit_n("use resolved immediately", stages[0]);
+	cx.report.hit_n("use resolved by local task", stages[1]);
+	cx.report.hit_n("use resolved by global task", stages[2]);
+	cx.report.hit_n("files", p.files.len() as u64);
+	if let Some(msg) = &obs.panic
+	{
+		cx.report.hit("outcome: PANIC");
+		cx.report.oracle_fail(input, format!("the real Context panicked: {msg}"));
+		return;
+	}
+	match obs.diags.first()
+	{
+		None => cx.report.hit(if obs.final_ok {"outcome: assembled"} else {"outcome: failed without diagnostic"}),
+		Some((_, k)) => cx.report.hit(&format!("outcome: first diagnostic {k}")),
+	}
+	if obs.has_file {cx.report.oracle_fail(input.clone(), "a file is still current after the root file ended (scope stack not restored)");}
+	// (a) no value differs from a defining statement of that name
+	let use_name = |tag: u64| match &p.files[file_of_tag(tag)][line_of_tag(tag) as usize - if file_of_tag(tag) == 0 {2} else {1}] {St::Use(n) => n.clone(), _ => String::new()};
+	let parents = p.parent_map();
+	for (tag, v) in &obs.values
+	{
+		let n = use_name(*tag);
+		let defs: Vec<u64> = fl.defs.iter().filter(|(_, (dn, dv))| *dn == n && *dv == *v as i64).map(|(t, _)| *t).collect();
+		if defs.is_empty()
+		{
+			cx.report.oracle_fail(input.clone(), format!(".du32 {n} at f{}.asm:{} wrote {v}, which is the value of no definition of {n}", file_of_tag(*tag), line_of_tag(*tag)));
+			continue;
+		}
+		// (b) isolation: visible only along licensed edges
+		if obs.final_ok && !defs.iter().any(|d| licensed(p, &parents, &n, file_of_tag(*d), file_of_tag(*tag)))
+		{
+			cx.report.oracle_fail(input.clone(), format!(".du32 {n} at f{}.asm:{} sees the definition at f{}.asm:{} although no chain of .export/.global (up) and .import (down) connects the two files",
+				file_of_tag(*tag), line_of_tag(*tag), file_of_tag(defs[0]), line_of_tag(defs[0])));
+		}
+	}
+	// (c) the reference interpretation of the rules
+	match reference(p, fl)
+	{
+		Verdict::Clean(res) =>
+		{
+			cx.report.hit("rules: clean project");
+			if !obs.diags.is_empty() || !obs.final_ok
+			{
+				cx.report.oracle_fail(input.clone(), format!("the scope rules accept the project, the assembler reports {:?}", obs.diags));
+			}
+			for (tag, (v, d)) in &res
+			{
+				if obs.values.get(tag).map(|x| *x as i64) != Some(*v)
+				{
+					cx.report.oracle_fail(input.clone(), format!(".du32 at f{}.asm:{} must see the definition at f{}.asm:{} (value {v}), the image holds {:?}",
+						file_of_tag(*tag), line_of_tag(*tag), file_of_tag(*d), line_of_tag(*d), obs.values.get(tag)));
+				}
+			}
+			if obs.values.len() != res.len() || obs.executed != fl.uses.len()
+			{
+				cx.report.oracle_fail(input.clone(), format!("{} .du32 statements, {} executed, {} hold a value", fl.uses.len(), obs.executed, obs.values.len()));
+			}
+		},
+		Verdict::Violation(tag, what) =>
+		{
+			cx.report.hit(&format!("rules: must diagnose — {what}"));
+			if obs.final_ok || !obs.diags.iter().any(|(t, _)| *t == tag)
+			{
+				cx.report.oracle_fail(input.clone(), format!("{what} at f{}.asm:{} must be diagnosed; diagnostics: {:?}, finalize ok: {}", file_of_tag(tag), line_of_tag(tag), obs.diags, obs.final_ok));
+			}
+		},
+		Verdict::Unspecified(what) =>
+		{
+			cx.report.hit(&format!("rules: silent — {what}"));
+		},
+	}
+}
+
+fn run_batch(cx: &mut Cx, projects: &[Project], serial: &mut u64)
+{
+	for chunk in projects.chunks(2048)
+	{
+		let flats: Vec<Flat> = chunk.iter().map(flatten).collect();
+		let lines: Vec<String> = flats.iter().map(|f| format!("scope run {}", f.ops.join(" "))).collect();
+		let replies = cx.model.ask_many(&lines);
+		for ((p, fl), r) in chunk.iter().zip(flats.iter()).zip(replies.iter())
+		{
+			check_one(cx, p, fl, r, *serial);
+			*serial += 1;
+		}
+	}
+}
+
+pub fn run(_id: &str, cx: &mut Cx)
+{
+	cx.report.rule = "projects = include trees (depth <= 4, fan-out <= 3, <= 9 files) of .const/label/.global/.import/.export/.du32/.include statements, written to disk and assembled by the real Context; \
+(1) hand-written collision scenarios, (2) every two-file project pre++[include]++post / child over one name up to the tier's lengths (exhaustive), (3) random projects guided by the scope rules with a tunable share of illegal statements. \
+non-trivial = at least one .du32 value or one diagnostic observed; distinct = distinct canonical observations".to_owned();
+	let mut serial = 0u64;
+	if let Some(input) = cx.replay.clone()
+	{
+		match Project::decode(&input)
+		{
+			Some(p) if p.is_tree() => run_batch(cx, &[p], &mut serial),
+			_ => cx.report.oracle_fail(input, "unrecognised replay input"),
+		}
+		return;
+	}
+	let sc = scenarios();
+	cx.report.hit_n("scenario projects", sc.len() as u64);
+	for p in &sc {assert!(p.is_tree(), "scenario is not a tree: {}", p.encode());}
+	run_batch(cx, &sc, &mut serial);
+	for p in sc.iter().take(6)
+	{
+		let fl = flatten(p);
+		let names = names_of(p);
+		let o = observe(p, &cx.work.join("sample"), &fl, &names);
+		cx.report.sample(format!("{} -> {}", p.encode(), canon_obs(&o)));
+	}
+
+	let en = if cx.thorough() {enumerate_two_files(3, 2, 2)} else {enumerate_two_files(3, 1, 2)};
+	cx.report.hit_n("two-file projects (exhaustive)", en.len() as u64);
+	run_batch(cx, &en, &mut serial);
+
+	let n = if cx.thorough() {150_000} else {15_000};
+	let mut projects = Vec::with_capacity(n);
+	for _ in 0..n
+	{
+		let p = gen_random(&mut cx.rng);
+		debug_assert!(p.is_tree());
+		projects.push(p);
+	}
+	let nd = n / 5;
+	for _ in 0..nd
+	{
+		let p = gen_deferred(&mut cx.rng);
+		debug_assert!(p.is_tree());
+		projects.push(p);
+	}
+	cx.report.hit_n("deferred-import projects", nd as u64);
+	cx.report.hit_n("random projects", n as u64);
+	let max_depth = projects.iter().map(|p| {let par = p.parent_map(); (0..p.files.len()).map(|mut f| {let mut d = 1; while let Some(q) = par[f] {d += 1; f = q;} d}).max().unwrap_or(1)}).max().unwrap_or(0);
+	cx.report.notes.push(format!("deepest include nesting generated: {max_depth}"));
+	run_batch(cx, &projects, &mut serial);
 }
